@@ -78,15 +78,17 @@ def history (pre : Bytes) : (atStart : Bool) → List (Bytes × Option Nat) →
         let (o, r) := history pre a' rest
         (took ++ o, (n, true, some a') :: r)
 
-/-- The histories on which the line state at every cut happens to be the line state at the end of the
-cut call's argument (and no cut falls inside a prefix): the inputs on which keeping the state of
-the whole argument after a short write — what the Go code does — is right. -/
-def cutsAtEndState (pre : Bytes) : (atStart : Bool) → List (Bytes × Option Nat) → Prop
-  | _, [] => True
-  | a, (c, none) :: rest => cutsAtEndState pre (atStartAfter a c) rest
+/-- A history up to and including its first cut inside a prefix (all of it when there is none): the
+part of it the specification speaks about. -/
+def uptoBrokenCut (pre : Bytes) : (atStart : Bool) → List (Bytes × Option Nat) → List (Bytes × Option Nat)
+  | _, [] => []
+  | a, (c, none) :: rest => (c, none) :: uptoBrokenCut pre (atStartAfter a c) rest
   | a, (c, some k) :: rest =>
-    if c.isEmpty then cutsAtEndState pre a rest
-    else cutState pre a c k = some (atStartAfter a c) ∧ cutsAtEndState pre (atStartAfter a c) rest
+    if c.isEmpty then (c, some k) :: uptoBrokenCut pre a rest
+    else
+      match cutState pre a c k with
+      | none => [(c, some k)]
+      | some a' => (c, some k) :: uptoBrokenCut pre a' rest
 
 /-- What a history shows to the caller and the underlying writer (the line states dropped; counts as
 Go `int`s). -/
